@@ -84,6 +84,15 @@ package mvs
 //@   callsite LoadOrStore: assert registers-the-sub-path-of-the-key: wk_ok(trimpv(projectPath)) ==> $2.(*mvs.projectRepository).projectPath == wk_rel(trimpv(projectPath))
 //@   modifies heap, smap
 
+// A cache entry appears atomically (C10: the answer does not depend on the state of the download
+// cache): the revision is fetched into a fresh temporary directory, and the cache entry is created
+// only by renaming onto it - never by fetching into it - so a fetch that fails part-way leaves no
+// entry that a later resolution would take for a complete project.
+//@ func (*mvs.Resolver).FetchProject$1
+//@   callsite FetchRevision: assert fetches-into-the-temporary-directory: $4 == tmpDir
+//@   callsite Rename: assert entry-created-by-rename: $1 == cacheDir
+//@   modifies heap, smap
+
 // The requirement edges handed to the MVS library: one edge per requirement name of the fetched
 // project's configuration, carrying that requirement's path and version (two names for one project
 // are two edges - their versions may differ, and the maximum must win).
